@@ -1154,6 +1154,73 @@ fn run(a: &Args) {
                             c.prev_op_was_quiet_poll = false;
                             c.snapshot()
                         }
+                        // `wqc pause|resume|stop`: the command is handed to `WakerQueue::wake` by ANOTHER thread while
+                        // the queue's mutex is held (as the accept thread holds it around every pop); readiness events
+                        // that arrive before the mutex is released are taken and discarded (an iteration whose pop
+                        // found the queue empty). Whatever `wake` did, once it has returned the interest is queued and
+                        // the accept thread must still be woken for it: the next op is a `poll quiet=1`.
+                        ["wqc", kind] if matches!(*kind, "pause" | "resume" | "stop") => {
+                            let pending = {
+                                let w = c.world.borrow();
+                                w.connected.len() > w.sends.len()
+                            };
+                            if c.exited || pending || c.world.borrow().waker.queued() > 0 {
+                                // only meaningful on a quiet loop (and discarding events must not lose a listener edge)
+                                "bad-op".into()
+                            } else {
+                                install_hook(&c.world, &c.yields, vec![], Rc::new(RefCell::new(vec![])));
+                                let wk = c.world.borrow().waker.clone();
+                                let (go_tx, go_rx) = std::sync::mpsc::channel::<()>();
+                                let (done_tx, done_rx) = std::sync::mpsc::channel::<()>();
+                                let wk2 = wk.clone();
+                                let k = kind.to_string();
+                                let th = std::thread::spawn(move || {
+                                    let _ = go_rx.recv();
+                                    match k.as_str() {
+                                        "pause" => wk2.pause(),
+                                        "resume" => wk2.resume(),
+                                        _ => wk2.stop(),
+                                    }
+                                    let _ = done_tx.send(());
+                                });
+                                let mut early = vec![];
+                                wk.hold(|| {
+                                    let _ = go_tx.send(());
+                                    std::thread::sleep(Duration::from_millis(150));
+                                    early = c.driver.drain_events();
+                                });
+                                let returned = done_rx.recv_timeout(Duration::from_secs(20)).is_ok();
+                                if returned {
+                                    let _ = th.join();
+                                }
+                                {
+                                    let mut w = c.world.borrow_mut();
+                                    match *kind {
+                                        "pause" => w.last_cmd_pause = Some(true),
+                                        "resume" => {
+                                            w.resume_seen = true;
+                                            w.last_cmd_pause = Some(false);
+                                        }
+                                        _ => w.stop_seen = true,
+                                    }
+                                    w.acts.push(if returned { "ok".into() } else { "stuck".into() });
+                                    if !returned {
+                                        for p in ["C05", "C06"] {
+                                            w.t3.push((p.into(), format!("WakerQueue::wake({kind}) did not return within 20 s after the queue's mutex was released")));
+                                        }
+                                    }
+                                }
+                                if *kind == "pause" {
+                                    c.paused_cmds = true;
+                                }
+                                if *kind == "stop" {
+                                    c.stop_cmd = true;
+                                }
+                                c.prev_op_was_quiet_poll = false;
+                                let _ = early;
+                                c.snapshot()
+                            }
+                        }
                         ["env", acts] if valid_acts(acts) => {
                             install_hook(&c.world, &c.yields, vec![], Rc::new(RefCell::new(vec![])));
                             for a in acts.split(',').filter(|a| !a.is_empty()) {
@@ -1189,7 +1256,22 @@ fn run(a: &Args) {
                                 w.faulted_log.extend(drained);
                                 w.faulted_log.len()
                             };
-                            let r = catch(std::panic::AssertUnwindSafe(|| c.driver.step()));
+                            // `quiet=1`: the driver does not ring the mio waker itself — the iteration runs only if the
+                            // code under test woke the accept thread (or a listener is ready), else it times out
+                            let quiet_poll = kv(rest, "quiet") == Some("1");
+                            let queued_before = c.world.borrow().waker.queued();
+                            let r = catch(std::panic::AssertUnwindSafe(|| if quiet_poll { c.driver.step_quiet(Duration::from_millis(400)) } else { c.driver.step() }));
+                            if quiet_poll {
+                                if let Ok(rep) = &r {
+                                    if queued_before > 0 && !rep.events.contains(&WAKER) {
+                                        let msg = format!("{queued_before} interest(s) were in the waker queue (every `wake` call had returned) but the accept thread was not woken: it would sleep in `poll` for ever — a pause / resume / stop / worker notification is lost");
+                                        let mut w = c.world.borrow_mut();
+                                        for p in ["C03", "C05", "C06", "C08", "C01"] {
+                                            w.t3.push((p.into(), msg.clone()));
+                                        }
+                                    }
+                                }
+                            }
                             let y = *c.yields.borrow();
                             match r {
                                 Ok(report) => {
@@ -1646,6 +1728,35 @@ fn gen(a: &Args) {
         writeln!(w, "bld workers=1 limit=2 n=1 calls=limit,workers").unwrap();
         writeln!(w, "bld workers=1 limit=1 n=1 calls=limit").unwrap();
         writeln!(w, "bld workers=1 limit=1 n=1 calls=limit,workers,bogus:3").unwrap();
+    }
+    if matches!(prop, "C06" | "C05" | "C03" | "C08" | "C01") {
+        // a command handed to `WakerQueue::wake` while the queue's mutex is busy still wakes the accept thread
+        // (`wqc` + an iteration the driver does not wake itself)
+        let seqs: [&[&str]; 5] = [
+            &["wqc stop", "poll quiet=1"],
+            &["wqc pause", "poll quiet=1", "wqc stop", "poll quiet=1"],
+            &["wqc pause", "poll quiet=1", "wqc resume", "poll quiet=1", "connect 0", "poll", "wqc stop", "poll quiet=1"],
+            &["poll quiet=1", "wqc resume", "poll quiet=1", "wqc pause", "poll quiet=1", "wqc pause", "poll quiet=1"],
+            &["connect 0", "poll", "wqc pause", "poll quiet=1", "connect 0", "poll", "wqc stop", "poll quiet=1"],
+        ];
+        let n = if thorough { 5 } else if prop == "C06" { 5 } else { 2 };
+        for (i, sq) in seqs.iter().enumerate().take(n) {
+            let lst = if i % 2 == 0 { "tcp" } else { "uds,tcp" };
+            writeln!(w, "case wq-contended-{i} workers={} limit=2 listeners={lst}", 1 + i % 2).unwrap();
+            for l in *sq {
+                writeln!(w, "{l}").unwrap();
+            }
+        }
+        writeln!(w, "case wq-malformed workers=1 limit=1 listeners=tcp").unwrap();
+        writeln!(w, "wqc").unwrap();
+        writeln!(w, "wqc restart").unwrap();
+        writeln!(w, "connect 0").unwrap();
+        writeln!(w, "wqc pause").unwrap();
+    }
+    if prop == "C06" {
+        // (C06's own engine is `worker`; this engine contributes the waker-queue hand-over of `Stop` only)
+        w.flush().unwrap();
+        return;
     }
     let cases = if thorough { 30000 } else { 1200 };
     for c in 0..cases {
